@@ -140,8 +140,13 @@ def view_targets():
         cl = tmodel.ens_slice(W(), 'self', 'begin', 'end', res)
         # slice inside the buffer; the assert in tslice.  The product (end - begin) * P_1 is NAMED nv_ext on the C side
         facts = smt2c(tmodel.AND(cl[-1][1].replace('(* (- end begin) nv_len)', 'nv_ext'), '(and (<= 0 begin) (<= begin end))'))
-        f = Fn('tslice', TU, 'tslice', flt='nano::', select=sel(R, 'tslice', 3), self_struct='struct nv_tens', types=types, members=members,
+        f = Fn('tslice', TU, 'tslice', flt='nano::', select=sel(R, 'tslice', 3), self_struct='struct nv_tens', types=types,
+               members=members + [(r'^size\|.*\|<0>', '(nv_d[0])'), (r'^size\|', '{self}->size')],
                calls=[(r'^map_tensor\|', 'nv_map_slice({0}, {1}, begin, end)'), (r'^operator\[\]\|', '{0}.d[{1}]')], uf_float=False)
+        # offset0(begin) = begin * P_1 and P_0 = dims[0] * P_1 (the SMT-side definitions): an empty slice at the very end has
+        # offset P_0 = size(); the library computes that case as size() instead of calling offset0 (whose own assert wants a
+        # valid first index)
+        facts += '&&(end<=nv_d[0])&&(begin!=nv_d[0]||nv_off==self->size)'
         out.append(Target(f'tslice_ptr_r{R}', [f], H, defines=['NV_SMT_FACTS=' + facts]))
         at = Fn('at', TU, 'operator()', flt='nano::', select=lambda d, R=R: d.get('mangledName', '') == f'_ZN4nano8tensor_tINS_23tensor_vector_storage_tEdLm{R}EEclEl',
                 self_struct='struct nv_tens', types=types, members=members, uf_float=False, ret='double&')
